@@ -85,3 +85,29 @@ func ZZ_C14() {
 		vr.Cover("mismatch")
 	}
 }
+
+// ZZ_C14_coefficients: the weights of the aggregate key are per-signer: two different signers
+// of one signer set never get the same coefficient (this is what defeats key cancellation).
+// Decided under a collision-free hash model (different hash inputs give different digests).
+func ZZ_C14_coefficients() {
+	n := vr.Choose(2, 3)
+	publics := make([]*Key, n)
+	signers := make([]int, n)
+	for i := 0; i < n; i++ {
+		k := zzScalarKey()
+		pub := k.Public()
+		publics[i] = &pub
+		signers[i] = i
+	}
+	_, coefficients, _, err := aggregateWeightedPublicKey(publics, signers)
+	vr.Assert(err == nil && len(coefficients) == n, "weights-computed-for-every-signer")
+	if err != nil || len(coefficients) != n {
+		return
+	}
+	for i := 0; i < n; i++ {
+		for j := i + 1; j < n; j++ {
+			vr.Assert(coefficients[i].Equal(coefficients[j]) == 0, "different-signers-have-different-weights")
+		}
+	}
+	vr.Cover("weights")
+}
